@@ -173,7 +173,7 @@ def check_detonation_flux(v, cls, eos, Tn, vw, vp, vm, Tp, Tm, rtol, atol):
                f"([{vlo:.10g},{vhi:.10g}], slack {allow:.2e})", vw=vw, vm=vm)
 
 
-def check_case(case) -> Verdict:
+def _check_case(case) -> Verdict:
     import numpy as np
     from WallGo import WallGoError
 
@@ -439,3 +439,39 @@ def check_case(case) -> Verdict:
                + f"; worst {k0}: {ratios[k0]:.3g} x allowed",
                vw=vw, returned=[vp, vm, Tp, Tm], reference=[rvp, rvm, rTp, rTm], allowed=allow)
     return v
+
+
+WATCHDOG_S = 240  # per-case wall-clock guard: a solver that does not return is reported as a discard, never a violation
+
+
+class _CaseTimeout(Exception):
+    pass
+
+
+def _with_watchdog(fun, case):
+    """Run fun(case) under a SIGALRM guard (main thread only; no-op elsewhere)."""
+    import signal
+    import threading
+
+    if threading.current_thread() is not threading.main_thread() or not hasattr(signal, "SIGALRM"):
+        return fun(case)
+
+    def handler(signum, frame):
+        raise _CaseTimeout()
+
+    old = signal.signal(signal.SIGALRM, handler)
+    signal.alarm(WATCHDOG_S)
+    try:
+        return fun(case)
+    except _CaseTimeout:
+        v = Verdict()
+        v.label("watchdog-timeout")
+        v.info["watchdog_s"] = WATCHDOG_S
+        return v.discarded("watchdog-timeout")
+    finally:
+        signal.alarm(0)
+        signal.signal(signal.SIGALRM, old)
+
+
+def check_case(case) -> Verdict:
+    return _with_watchdog(_check_case, case)
